@@ -108,7 +108,9 @@ def run(run):
     run.nt = 0
     run.nt_sessions = 0
     maxlen = 6 if quick else 7
-    run.rule = ("all operation sequences of length <= %d over 9 history operations (9^1+...+9^%d sequences, exhaustive) and random "
+    run.rule = ("all operation sequences of length <= %d over 11 history operations - add, add blank-padded, add #-leading, add raw with "
+                "trailing blanks (as `history -s`), incremental save, full rewrite (as `history -w`), new session, delete first / last, clear, "
+                "toggle timestamps - (11^1+...+11^%d sequences minus the region of open finding C20-F1, exhaustive) and random "
                 "sequences of length 6-12, each replayed through the real history API and compared after every step with an "
                 "executable model of file + session plus file invariants (exactly once, recording order, timestamp attached); "
                 "plus multi-session `brush -o history` runs on stdin with `history -a`. non-trivial = sequences in which a save "
@@ -116,6 +118,18 @@ def run(run):
     run.assumptions = ["single-line commands; `#`-leading commands are recorded but excluded from the exactly-once claim as the statement says",
                        "timestamp values are normalised (their attachment, not their value, is compared)"]
     d = core.new_scratch("h20")
+    # canary for open finding C20-F1 (add, rewrite, save): the exact sequence must still show the recorded duplicate, or be clean
+    kf = next((e for e in run.findings.all_entries() if e["id"] == "C20-F1"), None)
+    if kf:
+        cres = inproc.run_harness(["history-random", "--seq", kf["sequence"], "--dir", d, "--threads", 1])
+        v = cres.get("violations") or []
+        if v and "appears more than once" in v[0].get("what", ""):
+            run.findings.report(kf)
+            run.count("canaries_known_defect")
+        elif v:
+            run.violation("C20|canary:C20-F1|" + v[0].get("what", "")[:60], {"kind": "sequence", "seq": v[0].get("seq"), "ops": v[0].get("ops"), "what": v[0].get("what")})
+        else:
+            run.count("canaries_no_longer_failing")
     res = inproc.run_harness(["history-exhaustive", "--maxlen", maxlen, "--dir", d], timeout=3000)
     absorb(run, res, "exhaustive")
     res = inproc.run_harness(["history-random", "--count", int((20000 if quick else 400000) * scale), "--seed", run.seed, "--len", 12, "--dir", d])
